@@ -90,7 +90,9 @@ class ContextService(ServiceWithOperations):
                         descr = self._mdib.descriptions.handle.get_one(handle, allow_none=True)
                         if descr:
                             if pm_names.MdsDescriptor == descr.NODETYPE:
-                                tmp = list(self._mdib.context_states.objects)
+                                handles_in_mds = {d.Handle for d in self._mdib.get_all_descriptors_in_subtree(descr)}
+                                tmp = [state for state in self._mdib.context_states.objects
+                                       if state.DescriptorHandle in handles_in_mds]
                     if tmp:
                         for state in tmp:
                             context_state_containers_lookup[state.Handle] = state
